@@ -33,6 +33,19 @@ class NumStr:
         self.val = z3.Int(name + '_value')
         self.has_plus = z3.Bool(name + '_has_plus')      # Rust's integer FromStr accepts a leading '+'
         self.name = name
+        self.outer_ws = None      # set on the original when code trims it: (has surrounding whitespace, the trimmed NumStr)
+
+
+def m_numstr_trim(ex, args, callee):
+    """trim of a value-level segment: a numeric segment has no whitespace, so it is unchanged; a non-numeric one with surrounding
+    whitespace becomes some other text (which may well be numeric: ` 12 ` -> `12`)"""
+    s = dv(args[0])
+    if not isinstance(s, NumStr): raise Unsupported(f'{callee} of {s!r}')
+    if s.outer_ws is None:
+        s.outer_ws = (z3.Bool(s.name + '_has_outer_whitespace'), NumStr(s.name + '_trimmed'))
+    ws, inner = s.outer_ws
+    ex.assume(z3.Implies(s.numeric, z3.Not(ws)))
+    return inner if ex.truth(ws) else s
 
 
 class Env:
@@ -93,7 +106,14 @@ def m_into_parts(ex, args, callee):
     return Tup([Cell(parts), Cell(r.body)])
 
 
+def m_trim_any(ex, args, callee):
+    if isinstance(dv(args[0]), NumStr): return m_numstr_trim(ex, args, callee)
+    from props import strmodel
+    return strmodel.m_trim(ex, args, callee)
+
+
 MODELS = [
+    (r'<impl str>::trim$', m_trim_any),
     (r'<impl str>::parse::<\w+>$', m_parse),
     (r' as [\w:]*Visitor<.*>>::visit_\w+(::<.*>)?$', m_visit),
     (r'^serde_path_to_error::deserialize::<', m_path_to_error_deserialize),
@@ -386,6 +406,9 @@ def report_scalar(chk, m, ty, s, what):
         chk.mismatches.append(f'model not replayable (no native endpoint with a {ty} path field): {what}'); return
     ev = lambda t: m.eval(t, model_completion=True)
     text = str(ev(s.val).as_long()) if bool(ev(s.numeric)) else 'x1'
+    if not bool(ev(s.numeric)) and s.outer_ws is not None and bool(ev(s.outer_ws[0])):
+        inner = s.outer_ws[1]
+        text = '%20' + (str(ev(inner.val).as_long()) if bool(ev(inner.numeric)) else 'x1') + '%20'       # surrounding whitespace, percent-encoded for the wire
     case, key = scalar_case(ty, text)
     nat = replay([case])[0]
     lo, hi = INT_RANGE[ty]
